@@ -275,6 +275,21 @@ func check(c Case) error {
 			}
 		}
 		return nil
+	case "fullcount":
+		// a destination that takes every byte (full count) but reports an error on the write
+		// that reaches offset K: the failure it reported has to surface
+		if p.Fails {
+			return nil
+		}
+		w := &fw.FullCount{K: c.K}
+		err := p.Run(ctx, c.Entry, stringWriter(c.Dest, w))
+		if w.Failed && err == nil {
+			return fmt.Errorf("%s/%s: the destination writer reported a failure together with a full byte count (offset %d) but render returned nil", c.Prog, c.Entry, c.K)
+		}
+		if !w.Failed && err != nil {
+			return fmt.Errorf("%s/%s: writer never failed but render returned %v", c.Prog, c.Entry, err)
+		}
+		return nil
 	case "closedfile":
 		// a real *os.File that has been closed: every write fails with os.ErrClosed
 		if p.Fails {
@@ -523,6 +538,10 @@ func TestProp(t *testing.T) {
 			}
 			each(Case{Prog: p.Name, Entry: e, Mode: "cancel"})
 			each(Case{Prog: p.Name, Entry: e, Mode: "closedfile"})
+			for _, k := range []int{0, 1, 7, 40} {
+				each(Case{Prog: p.Name, Entry: e, Mode: "fullcount", K: k})
+			}
+			each(Case{Prog: p.Name, Entry: e, Mode: "fullcount", K: 3, Dest: "sw"})
 			each(Case{Prog: p.Name, Entry: e, Mode: "deadline", K: 0})
 			each(Case{Prog: p.Name, Entry: e, Mode: "deadline", K: 1})
 			if p.Fails {
@@ -626,10 +645,10 @@ func TestProp(t *testing.T) {
 	// random combination (keeps the rapid path and shrinking available for seeded changes)
 	names := cat.Names()
 	run.Rapid(t, rec, "random", func(t *rapid.T) Case {
-		c := Case{Prog: rapid.SampledFrom(names).Draw(t, "prog"), Entry: rapid.SampledFrom(cat.Entries).Draw(t, "entry"), Mode: rapid.SampledFrom([]string{"ref", "failat", "cancel", "deadline", "failnth", "refuse", "cancelmid", "procfail"}).Draw(t, "mode")}
+		c := Case{Prog: rapid.SampledFrom(names).Draw(t, "prog"), Entry: rapid.SampledFrom(cat.Entries).Draw(t, "entry"), Mode: rapid.SampledFrom([]string{"ref", "failat", "cancel", "deadline", "failnth", "refuse", "cancelmid", "procfail", "fullcount", "closedfile"}).Draw(t, "mode")}
 		c.K = rapid.IntRange(0, 700).Draw(t, "k")
 		c.Dest = rapid.SampledFrom(dests).Draw(t, "dest")
-		if (c.Mode == "failat" || c.Mode == "failnth" || c.Mode == "refuse") && rapid.Bool().Draw(t, "sw") {
+		if (c.Mode == "failat" || c.Mode == "failnth" || c.Mode == "refuse" || c.Mode == "fullcount") && rapid.Bool().Draw(t, "sw") {
 			c.Dest = "sw"
 		}
 		if c.Mode == "failat" && rapid.Bool().Draw(t, "errkind?") {
